@@ -560,7 +560,7 @@ PROPS = {
             'round trip is decided for LF / CRLF texts (no lone CR); the offset strictly between CR and LF is a separate obligation (known finding)',
             'position columns strictly inside a surrogate pair: only totality and boundary-ness of the result are decided',
         ],
-        'not_decided': ['CharSpan::from beyond the Kani bound (it only calls utf8_to_char_index on both ends)'],
+        'not_decided': [],
     },
     'C13': {
         'units': ['c14'],
